@@ -159,7 +159,7 @@ def main(tier, replay):
         jid = 'r'
         raw = T.run_jobs(binary, [(jid, T.job_text(jid, case['engine'], case['xml'], case['history'], flags=(['pending%d' % case['pending']] if case.get('pending') else []), snap=case['snapshot_at_stable_point']))])
         print('\n'.join(raw[jid]['lines'])[:6000]); sys.exit(0)
-    n = 300 if tier == 'quick' else 10000
+    n = 600 if tier == 'quick' else 10000
     base = chk.seed * 1000000 + 1414
     cases = []
     for i in range(n):
